@@ -537,9 +537,42 @@ fn closure_bodies<'a>(items: &'a [Item], out: &mut Vec<&'a [Item]>) {
     }
 }
 
+/// Split a run of calls into closure-body constructions: indices into `allowed`, or `None`.
+fn decompose(burst: &[Sig], allowed: &[Vec<Sig>]) -> Option<Vec<usize>> {
+    // reach[i] = Some(j): burst[..i] decomposes and its last piece is allowed[j]
+    let mut reach: Vec<Option<usize>> = vec![None; burst.len() + 1];
+    let mut ok = vec![false; burst.len() + 1];
+    ok[0] = true;
+    for i in 0..burst.len() {
+        if !ok[i] {
+            continue;
+        }
+        for (j, a) in allowed.iter().enumerate() {
+            if !a.is_empty() && burst[i..].starts_with(a) && !ok[i + a.len()] {
+                ok[i + a.len()] = true;
+                reach[i + a.len()] = Some(j);
+            }
+        }
+    }
+    if !ok[burst.len()] {
+        return None;
+    }
+    let mut out = vec![];
+    let mut i = burst.len();
+    while i > 0 {
+        let j = reach[i]?;
+        out.push(j);
+        i -= allowed[j].len();
+    }
+    out.reverse();
+    Some(out)
+}
+
 /// What the call log of a lazy adapter must look like: before the first pull exactly the root
-/// pipeline's calls; afterwards every maximal run of calls is the construction of one closure body.
-/// Returns (number of bursts, number of distinct closure bodies seen) or the offending burst.
+/// pipeline's calls; afterwards every maximal run of calls is the construction of one closure body, or
+/// of several in a row (an inner pipeline that yields nothing produces no pull event before the next
+/// closure runs).  Returns (closure activations recognised, distinct closure bodies seen) or the
+/// offending run.
 fn check_trace(plan: &[Item], prefix: &[Sig], bursts: &[Vec<Sig>]) -> Result<(usize, usize), String> {
     let fmt = |b: &[Sig]| b.iter().map(|(k, v)| format!("{}@{v}", k.name())).collect::<Vec<_>>().join(",");
     let want = own_calls(plan);
@@ -550,15 +583,17 @@ fn check_trace(plan: &[Item], prefix: &[Sig], bursts: &[Vec<Sig>]) -> Result<(us
     closure_bodies(plan, &mut bodies);
     let allowed: Vec<Vec<Sig>> = bodies.iter().map(|b| own_calls(b)).collect();
     let mut seen = BTreeSet::new();
+    let mut activations = 0;
     for b in bursts {
-        match allowed.iter().position(|a| a == b) {
-            Some(i) => {
-                seen.insert(i);
+        match decompose(b, &allowed) {
+            Some(pieces) => {
+                activations += pieces.len();
+                seen.extend(pieces);
             }
             None => return Err(format!("burst {}", fmt(b))),
         }
     }
-    Ok((bursts.len(), seen.len()))
+    Ok((activations, seen.len()))
 }
 
 // ------------------------------------------------------------------------------------------------
@@ -865,6 +900,26 @@ fn eval_chunk(args: &[Sexp]) -> Option<String> {
 pub struct C02 {
     stats: RefCell<GenStats>,
     schedules_per_query: Cell<usize>,
+    /// (dataset, query) pairs not sent because the unbatched result exceeds `GENERATOR_ROW_LIMIT`
+    skipped_large: Cell<usize>,
+}
+
+/// Results larger than this (nested recursions over a dense self-edge produce millions of rows) are
+/// not multiplied by the schedule count.
+const GENERATOR_ROW_LIMIT: usize = 1000;
+
+/// Does the unbatched run of a `(batch-exec …)` request return more than `limit` rows? (A panic is "no".)
+fn unbatched_exceeds(req: &Sexp, limit: usize) -> bool {
+    let Some((_, args)) = req.as_call() else { return false };
+    let Some(r) = parse_request(&args[..5.min(args.len())]) else { return false };
+    let Some(p) = prepare(r.schema, r.data, &r.text) else { return false };
+    let Ok(q) = &p.query else { return false };
+    let q = q.clone();
+    guarded(|| match interpret_ir(Arc::new(p.adapter()), q, real_args(&r.args)) {
+        Ok(rows) => rows.take(limit + 1).count() > limit,
+        Err(_) => false,
+    })
+    .unwrap_or(false)
 }
 
 fn scheds_spec(seed: u64, n_rand: usize) -> Sexp {
@@ -885,6 +940,19 @@ impl Prop for C02 {
         let n_rand = if tier == Tier::Quick { 24 } else { 1976 };
         self.schedules_per_query.set(std_schedules().len() + n_rand);
         let mut out = vec![];
+        // generated worlds FIRST: the same seed gives the worlds of C01
+        let knobs = WorldKnobs::for_tier(tier);
+        let (worlds, stats) = match guarded(|| gen_worlds(rng, &knobs)) {
+            Ok(x) => x,
+            Err(info) => {
+                eprintln!("engine generator panicked: {info}");
+                std::process::exit(3);
+            }
+        };
+        *self.stats.borrow_mut() = stats;
+        if std::env::var("C02_DEBUG").is_ok() {
+            eprintln!("worlds generated: {}", worlds.len());
+        }
         // chunk iterator
         let words = [0u64, MAX, ALTERNATING, 1, 2, 3, 0x1B, rng.next_u64(), rng.next_u64(), rng.next_u64()];
         for w in words {
@@ -921,24 +989,15 @@ impl Prop for C02 {
                 tags,
             });
         }
-        // generated worlds
-        let knobs = WorldKnobs::for_tier(tier);
-        let (worlds, stats) = match guarded(|| gen_worlds(rng, &knobs)) {
-            Ok(x) => x,
-            Err(info) => {
-                eprintln!("engine generator panicked: {info}");
-                std::process::exit(3);
-            }
-        };
-        *self.stats.borrow_mut() = stats;
-        if std::env::var("C02_DEBUG").is_ok() {
-            eprintln!("worlds generated: {}", worlds.len());
-        }
         for w in &worlds {
             for q in w.accepted() {
                 let tags: Vec<String> = q.gq.features.iter().cloned().collect();
                 for d in 0..w.datasets.len() {
                     let Some(mut req) = w.request("batch-exec", d, q) else { continue };
+                    if unbatched_exceeds(&req, GENERATOR_ROW_LIMIT) {
+                        self.skipped_large.set(self.skipped_large.get() + 1);
+                        continue;
+                    }
                     if let Sexp::List(v) = &mut req {
                         v.push(scheds_spec(rng.next_u64() >> 1, n_rand));
                     }
@@ -1034,6 +1093,7 @@ impl Prop for C02 {
         serde_json::json!({
             "generator": self.stats.borrow().to_json(),
             "schedules_per_query": self.schedules_per_query.get(),
+            "skipped_results_over_row_limit": {"limit": GENERATOR_ROW_LIMIT, "skipped": self.skipped_large.get()},
             "fixed_schedules": std_schedules().iter().map(|s| s.to_sexp().to_string()).collect::<Vec<_>>(),
             "batched_executions": BATCHED_RUNS.with(|c| c.get()),
             "trace_conformance": {"plan_requests_with_conforming_log": checked, "closure_bursts_matched": bursts, "closure_bodies_seen": distinct},
